@@ -64,7 +64,7 @@ def main():
     for pid in want:
         for f in glob.glob(os.path.join(COV, ".coverage*")):
             os.remove(f)
-        env = dict(os.environ, PYTHONPATH="/repo", PYTHONHASHSEED="0", PYGLS_VERIF="1", VERIF_NO_EVIDENCE="1",
+        env = dict(os.environ, PYTHONPATH="/repo", PYTHONHASHSEED="0", PYGLS_VERIF="1", VERIF_NO_EVIDENCE="1", VERIF_SERIAL="1",
                    PYTHONDONTWRITEBYTECODE="1")
         r = subprocess.run(["/venv/bin/python", "-m", "coverage", "run", f"--rcfile={rc}", "harness/check.py", pid,
                             "--tier", "quick"], cwd=ROOT, env=env, capture_output=True, text=True, timeout=3600)
